@@ -225,6 +225,35 @@ def run(chk):
         r1a.require(got == (want, want, want, 0 if given is not None else 1), key, cs.where(),
                     f"BaseHourlySettings._check_seed(seed={given}): the effective seed must be {'the seed given' if given is not None else 'one fresh draw'} and be copied to the elasticnet and "
                     f"temporal_cluster settings; found _seed={got[0]!r}, elasticnet._seed={got[1]!r}, temporal_cluster._seed={got[2]!r}, random draws={got[3]}", sample={"seed": given})
+    # the nested settings objects the seed is written onto must be fresh per settings object: a `default=<instance>` of a frozen (hashable)
+    # pydantic model is shared by every settings object built without that field, so the seed of whichever was built last is used by all
+    recv = sorted(n for n, v in me.__dict__.items() if isinstance(v, AbsObj) and "_seed" in v.__dict__)
+    bhs = chk.repo.cls("opendsm.eemeter.models.hourly.settings", "BaseHourlySettings")
+    subclasses = [c for m_ in chk.repo.modules.values() for c in m_.classes.values() if bhs in chk.res.mro(c)]
+    for c in subclasses:
+        for fld in recv:
+            if fld not in c.attrs:
+                continue
+            ann, val, st_ = c.attrs[fld]
+            how = "no default"
+            fresh = True
+            if val is not None:
+                if isinstance(val, ast.Call) and unparse(val.func).split(".")[-1] in ("Field", "CustomField"):
+                    kws = {k.arg: k.value for k in val.keywords if k.arg}
+                    if "default_factory" in kws:
+                        how = f"default_factory={unparse(kws['default_factory'])}"
+                    elif "default" in kws or val.args:
+                        dv = kws.get("default", val.args[0] if val.args else None)
+                        how = f"default={unparse(dv)}"
+                        fresh = isinstance(dv, ast.Constant) and dv.value is None
+                    else:
+                        how = "Field() without default"
+                else:
+                    how = f"= {unparse(val)[:40]}"
+                    fresh = isinstance(val, ast.Constant)
+            r1a.require(fresh, f"{c.key}.{fld}|per-instance-default", c.module.rel,
+                        f"{c.name}.{fld} receives the effective seed from _check_seed but is declared with {how}: one object shared by every settings instance built without it, "
+                        f"so a model is seeded with the seed of whichever settings object was constructed last (use default_factory)", sample={"field": f"{c.name}.{fld}", "declared": how})
     # the cluster call receives settings._seed in the seed position
     hm = chk.repo.cls(*HOURLY_MODEL)
     acf = method(chk, hm, "_add_categorical_features")
